@@ -241,6 +241,18 @@ func installStr(c *Ctx) {
 		c.errf("regexp.MatchString: pattern not concrete")
 		return nil
 	}
+	in["crypto/internal/boring/sig.StandardCrypto"] = func(c *Ctx, a []Value) Value { return nil }
+	in["crypto/internal/boring/sig.BoringCrypto"] = func(c *Ctx, a []Value) Value { return nil }
+	in["crypto/internal/boring/sig.FIPSOnly"] = func(c *Ctx, a []Value) Value { return nil }
+	// crypto/sha1: the block function is assembly on this platform; run the
+	// portable one from the same package instead
+	in["crypto/sha1.block"] = func(c *Ctx, a []Value) Value {
+		p := c.prog.ImportedPackage("crypto/sha1")
+		if p == nil || p.Func("blockGeneric") == nil {
+			c.errf("crypto/sha1.blockGeneric not found")
+		}
+		return c.call(p.Func("blockGeneric"), a)
+	}
 	// clock stub: the zero instant (no property looks at a time stamp taken by the code)
 	in["time.Now"] = func(c *Ctx, a []Value) Value { return zero(c.curCallee.Signature.Results().At(0).Type()) }
 	in["internal/stringslite.Clone"] = func(c *Ctx, a []Value) Value { return a[0] }
